@@ -275,7 +275,8 @@ SHAPES = [("rect", 4.0, 2.0, 1.0, 1.0, 0), ("rect", 4.0, 2.0, 1.0, 1.0, math.pi 
           ("poly", [[-1.0, -1.0], [3.0, -1.0], [3.0, 1.0], [1.0, 1.0], [1.0, 3.0], [-1.0, 3.0]]),
           ("poly", [[0.0, 0.0], [4.0, 2.0], [0.0, 2.0]]),
           ("group", [("rect", 2.0, 2.0, -1.0, 0.0, 0), ("circle", 1.0, 2.5, 2.5)]),
-          ("lanelets", [(-2.0, 0.0, 2.0, 2.0), (2.0, 0.0, 5.0, 2.0)]), ("lanelets", [(0.0, -1.0, 3.0, 1.5)])]
+          ("lanelets", [(-2.0, 0.0, 2.0, 2.0), (2.0, 0.0, 5.0, 2.0)]), ("lanelets", [(0.0, -1.0, 3.0, 1.5)]),
+          ("rect", 4.0, 4.0, 1.0, 0.5, math.pi / 4), ("rect", 6.0, 1.0, 0.5, 1.0, -1.2), ("rect", 2.0, 5.0, 0.0, 0.0, math.pi / 2)]
 VELS = [(0.0, 5.0), (-2.0, 2.0), (3.0, 3.0), (0, 5), (-2, 2.5)]
 TIMES = [(2, 5), (0, 0), (3, 3)]
 BASE_S = {"cls": "KSState", "t": 3, "pos": (1.0, 1.0), "ori": 0.1, "vel": 2.5}
@@ -310,6 +311,37 @@ def grid_points():
         for j in range(-6, 9):
             pts.append((i / 2.0, j / 2.0))
     return pts
+
+
+def probe_points(sh):
+    """points next to the corners / rim of the shape (just inside and just outside): shortcuts that bound a shape by a box or a radius are
+    wrong first near the corners"""
+    k = sh[0]
+    out = []
+    if k == "rect":
+        l, w, cx, cy, o = sh[1:]
+        c, s_ = math.cos(o), math.sin(o)
+        for sx, sy in ((1, 1), (1, -1), (-1, 1), (-1, -1), (1, 0), (0, 1), (-1, 0), (0, -1)):
+            for f in (0.97, 1.03):
+                dx, dy = f * sx * l / 2, f * sy * w / 2
+                out.append((cx + c * dx - s_ * dy, cy + s_ * dx + c * dy))
+    elif k == "circle":
+        r, cx, cy = sh[1:]
+        for i in range(8):
+            for f in (0.97, 1.03):
+                out.append((cx + f * r * math.cos(i * math.pi / 4 + 0.1), cy + f * r * math.sin(i * math.pi / 4 + 0.1)))
+    elif k == "poly":
+        mx = sum(p[0] for p in sh[1]) / len(sh[1]); my = sum(p[1] for p in sh[1]) / len(sh[1])
+        for px, py in sh[1]:
+            for f in (0.97, 1.03):
+                out.append((mx + f * (px - mx), my + f * (py - my)))
+    elif k == "group":
+        for m in sh[1]:
+            out += probe_points(m)
+    elif k == "lanelets":
+        for (x0, y0, x1, w) in sh[1]:
+            out += probe_points(("rect", x1 - x0, w, (x0 + x1) / 2, y0 + w / 2, 0))
+    return out
 
 
 def describe(tier):
@@ -379,7 +411,7 @@ def run_unit(unit, tier):
     elif k == "pos":
         sh = SHAPES[unit["i"]]
         lan = {0: [1, 2]} if sh[0] == "lanelets" else None
-        for p in grid_points():
+        for p in grid_points() + probe_points(sh):
             for cls in (KIN if unit["i"] in (0, 5) else ["KSState"]):
                 check_case([dict(BASE_G, pos=sh)], dict(BASE_S, cls=cls, pos=p), res, "position:" + sh[0], lan)
         res.states += 1
